@@ -284,4 +284,209 @@ theorem retain_unconflicted' {C : Type} (N : NumEnv C) (cands : List (Match C)) 
   exact foldl_retainStep_unconflicted N cands i c hi hno cands 0 (by intro m x h; simpa using h)
     _ (by simp) (by intro h; omega) (by omega)
 
+/-! ### `retain_not_dominated'` -/
+
+/-- the inner loop ends with "keep" when no earlier candidate can drop `c` -/
+theorem retainInner_keep {C : Type} (N : NumEnv C) (c : Match C)
+    (earlier : List (Match C × Bool × Nat)) (props : List Nat)
+    (h : ∀ x ∈ earlier,
+      (contains c x.1 = true →
+        N.wgt (x.1.endTok - x.1.startTok) x.1.conf (c.endTok - c.startTok) c.conf = false) ∧
+      (contains c x.1 = false → overlaps c x.1 = true → c.startLine = x.1.endLine)) :
+    (retainInner N c earlier props).1 = true := by
+  induction earlier generalizing props with
+  | nil => rfl
+  | cons x t ih =>
+    obtain ⟨o, ret, j⟩ := x
+    have hx := h (o, ret, j) (by simp)
+    simp only at hx
+    have ht : ∀ y ∈ t,
+        (contains c y.1 = true →
+          N.wgt (y.1.endTok - y.1.startTok) y.1.conf (c.endTok - c.startTok) c.conf = false) ∧
+        (contains c y.1 = false → overlaps c y.1 = true → c.startLine = y.1.endLine) :=
+      fun y hy => h y (by simp [hy])
+    unfold retainInner
+    by_cases h1 : contains c o = true ∧ ret = true
+    · simp only [h1, and_self, if_true]
+      by_cases h2 : N.wgt (c.endTok - c.startTok) c.conf (o.endTok - o.startTok) o.conf = true
+      · simp only [h2, if_true]
+        exact ih _ ht
+      · simp only [h2, hx.1 h1.1, Bool.false_eq_true, if_false]
+        exact ih _ ht
+    · simp only [h1, if_false]
+      by_cases h4 : overlaps c o = true ∧ ret = true
+      · simp only [h4, and_self, if_true]
+        have hc : contains c o = false := by
+          cases hco : contains c o with
+          | false => rfl
+          | true => exact absurd ⟨hco, h4.2⟩ h1
+        have h5 := hx.2 hc h4.1
+        simp only [h5, ne_eq, not_true_eq_false, if_false]
+        exact ih _ ht
+      · simp only [h4, if_false]
+        exact ih _ ht
+
+/-- only earlier candidates that `c` contains AND outweighs are proposed for displacement -/
+theorem retainInner_props_wgt {C : Type} (N : NumEnv C) (c : Match C)
+    (earlier : List (Match C × Bool × Nat)) (props : List Nat) (j : Nat)
+    (hj : j ∈ (retainInner N c earlier props).2) :
+    j ∈ props ∨ ∃ o ret, (o, ret, j) ∈ earlier ∧ contains c o = true ∧
+      N.wgt (c.endTok - c.startTok) c.conf (o.endTok - o.startTok) o.conf = true := by
+  induction earlier generalizing props with
+  | nil => exact Or.inl hj
+  | cons x t ih =>
+    obtain ⟨o, ret, k⟩ := x
+    unfold retainInner at hj
+    have lift : (j ∈ props ∨ ∃ o' ret', (o', ret', j) ∈ t ∧ contains c o' = true ∧
+          N.wgt (c.endTok - c.startTok) c.conf (o'.endTok - o'.startTok) o'.conf = true) →
+        j ∈ props ∨ ∃ o' ret', (o', ret', j) ∈ (o, ret, k) :: t ∧ contains c o' = true ∧
+          N.wgt (c.endTok - c.startTok) c.conf (o'.endTok - o'.startTok) o'.conf = true := by
+      rintro (h | ⟨o', ret', hm, hc⟩)
+      · exact Or.inl h
+      · exact Or.inr ⟨o', ret', by simp [hm], hc⟩
+    by_cases h1 : contains c o = true ∧ ret = true
+    · simp only [h1, and_self, if_true] at hj
+      by_cases h2 : N.wgt (c.endTok - c.startTok) c.conf (o.endTok - o.startTok) o.conf = true
+      · simp only [h2, if_true] at hj
+        rcases ih _ hj with h | h
+        · simp only [List.mem_append, List.mem_singleton] at h
+          rcases h with h | h
+          · exact Or.inl h
+          · subst h
+            exact Or.inr ⟨o, ret, by simp, h1.1, h2⟩
+        · exact lift (Or.inr h)
+      · simp only [h2] at hj
+        by_cases h3 : N.wgt (o.endTok - o.startTok) o.conf (c.endTok - c.startTok) c.conf = true
+        · simp only [h3, if_true] at hj
+          exact Or.inl hj
+        · simp only [h3] at hj
+          exact lift (ih _ hj)
+    · simp only [h1, if_false] at hj
+      by_cases h4 : overlaps c o = true ∧ ret = true
+      · simp only [h4, and_self, if_true] at hj
+        by_cases h5 : c.startLine = o.endLine
+        · simp only [h5, ne_eq, not_true_eq_false, if_false] at hj
+          exact lift (ih _ hj)
+        · simp only [ne_eq, h5, not_false_eq_true, if_true] at hj
+          exact Or.inl hj
+      · simp only [h4, if_false] at hj
+        exact lift (ih _ hj)
+
+theorem retainStep_at_nd {C : Type} (N : NumEnv C) (cands : List (Match C)) (i : Nat) (c : Match C)
+    (hi : cands[i]? = some c)
+    (hearlier : ∀ j o, cands[j]? = some o → j < i →
+      (contains c o = true →
+        N.wgt (o.endTok - o.startTok) o.conf (c.endTok - c.startTok) c.conf = false) ∧
+      (contains c o = false → overlaps c o = true → c.startLine = o.endLine))
+    (retain : List Bool) (hlen : retain.length = cands.length) :
+    (retainStep N cands retain (c, i))[i]? = some true := by
+  have hin : i < cands.length := by
+    rcases Nat.lt_or_ge i cands.length with h | h
+    · exact h
+    · rw [List.getElem?_eq_none h] at hi; cases hi
+  unfold retainStep
+  simp only
+  rw [retainInner_keep]
+  · simp only [if_true, List.getElem?_map]
+    have : retain.zipIdx[i]? = some (retain[i]'(by omega), i) := by
+      rw [List.getElem?_zipIdx]
+      simp [List.getElem?_eq_getElem (show i < retain.length by omega)]
+    rw [this]
+    simp
+  · rintro ⟨o, ret, j⟩ hx
+    obtain ⟨ho, hj⟩ := mem_earlier cands retain i o ret j hx
+    exact hearlier j o ho hj
+
+theorem retainStep_keep_nd {C : Type} (N : NumEnv C) (cands : List (Match C)) (i : Nat) (c : Match C)
+    (hi : cands[i]? = some c)
+    (hlater : ∀ j x, cands[j]? = some x → i < j → contains x c = true →
+      N.wgt (x.endTok - x.startTok) x.conf (c.endTok - c.startTok) c.conf = false)
+    (retain : List Bool) (hret : retain[i]? = some true)
+    (k : Nat) (x : Match C) (hk : cands[k]? = some x) (hki : i < k) :
+    (retainStep N cands retain (x, k))[i]? = some true := by
+  unfold retainStep
+  simp only
+  split
+  · simp only [List.getElem?_map]
+    have hin : i < retain.length := by
+      rcases Nat.lt_or_ge i retain.length with h | h
+      · exact h
+      · rw [List.getElem?_eq_none h] at hret; cases hret
+    have hv : retain[i] = true := by
+      rw [List.getElem?_eq_getElem hin] at hret
+      exact Option.some.inj hret
+    have : retain.zipIdx[i]? = some (retain[i]'hin, i) := by
+      rw [List.getElem?_zipIdx]
+      simp [List.getElem?_eq_getElem hin]
+    rw [this]
+    simp only [Option.map_some, Option.some.injEq]
+    have hik : ¬ i = k := by omega
+    simp only [hik, if_false, hv]
+    have hnot : i ∈ (retainInner N x (((cands.take k).zip (retain.take k)).zipIdx.map
+        (fun p => (p.1.1, p.1.2, p.2))) []).2 → False := by
+      intro hc
+      rcases retainInner_props_wgt N x _ [] i hc with h | ⟨o, ret, hm, hco, hw⟩
+      · simp at h
+      · obtain ⟨ho, _⟩ := mem_earlier cands retain k o ret i hm
+        rw [hi] at ho
+        have ho' : c = o := Option.some.inj ho
+        subst ho'
+        rw [hlater k x hk hki hco] at hw
+        cases hw
+    simpa using hnot
+  · exact hret
+
+theorem foldl_retainStep_nd {C : Type} (N : NumEnv C) (cands : List (Match C)) (i : Nat)
+    (c : Match C) (hi : cands[i]? = some c)
+    (hearlier : ∀ j o, cands[j]? = some o → j < i →
+      (contains c o = true →
+        N.wgt (o.endTok - o.startTok) o.conf (c.endTok - c.startTok) c.conf = false) ∧
+      (contains c o = false → overlaps c o = true → c.startLine = o.endLine))
+    (hlater : ∀ j x, cands[j]? = some x → i < j → contains x c = true →
+      N.wgt (x.endTok - x.startTok) x.conf (c.endTok - c.startTok) c.conf = false)
+    (l : List (Match C)) (k : Nat) (hl : ∀ m x, l[m]? = some x → cands[k + m]? = some x)
+    (retain : List Bool) (hlen : retain.length = cands.length)
+    (hdone : i < k → retain[i]? = some true) (hik : i < k + l.length) :
+    ((l.zipIdx k).foldl (retainStep N cands) retain)[i]? = some true := by
+  induction l generalizing k retain with
+  | nil => exact hdone (by simpa using hik)
+  | cons x t ih =>
+    rw [List.zipIdx_cons, List.foldl_cons]
+    have hx : cands[k]? = some x := by simpa using hl 0 x (by simp)
+    apply ih (k + 1)
+    · intro m y hy
+      have := hl (m + 1) y (by simpa using hy)
+      rw [show k + 1 + m = k + (m + 1) by omega]
+      exact this
+    · rw [retainStep_length, hlen]
+    · intro hlt
+      by_cases hk : k = i
+      · subst hk
+        rw [hi] at hx
+        have hx' : c = x := Option.some.inj hx
+        subst hx'
+        exact retainStep_at_nd N cands k c hi hearlier retain hlen
+      · exact retainStep_keep_nd N cands i c hi hlater retain (hdone (by omega)) k x hx (by omega)
+    · simp only [List.length_cons] at hik
+      omega
+
+/-- the overlap filter keeps a candidate that no earlier candidate drops and no later candidate
+displaces (see `retain_not_dominated` in LC/Props/C01.lean; `heavier` spelled out) -/
+theorem retain_not_dominated' {C : Type} (N : NumEnv C) (cands : List (Match C)) (i : Nat) (c : Match C)
+    (hi : cands[i]? = some c)
+    (hearlier : ∀ j o, cands[j]? = some o → j < i →
+      (contains c o = true →
+        N.wgt (o.endTok - o.startTok) o.conf (c.endTok - c.startTok) c.conf = false) ∧
+      (contains c o = false → overlaps c o = true → c.startLine = o.endLine))
+    (hlater : ∀ j x, cands[j]? = some x → i < j → contains x c = true →
+      N.wgt (x.endTok - x.startTok) x.conf (c.endTok - c.startTok) c.conf = false) :
+    (retainPass N cands)[i]? = some true := by
+  rw [retainPass_eq]
+  have hin : i < cands.length := by
+    rcases Nat.lt_or_ge i cands.length with h | h
+    · exact h
+    · rw [List.getElem?_eq_none h] at hi; cases hi
+  exact foldl_retainStep_nd N cands i c hi hearlier hlater cands 0 (by intro m x h; simpa using h)
+    _ (by simp) (by intro h; omega) (by omega)
+
 end LC.V2Match
